@@ -52,6 +52,11 @@ def gen_functional(g, tier):
               for _ in range(T)] for _ in range(H)] for _ in range(N)]
     sign = g.weighted([("mixed", 6), ("pos", 1), ("neg", 1), ("zero", 1)])
     ulim = 4 if dtype == "float64" else 2
+    # positions held as whole numbers of shares: `unit` is an INTEGER tensor (prices, cost rates and payoff stay floating point);
+    # the identity is the same one, and the result has the dtype of the prices
+    udtype = g.weighted([("same", 5), ("int64", 1), ("int32", 0.5)])
+    if udtype != "same":
+        ub = 0
 
     def u():
         if sign == "zero":
@@ -106,11 +111,12 @@ def gen_functional(g, tier):
         which = g.choice([0, 1, 2])
         su = list(su)
         su[which] += 1
-        unit = [[[F(1, 2)] * su[2] for _ in range(su[1])] for _ in range(su[0])]
+        unit = [[[F(1) if udtype != "same" else F(1, 2)] * su[2] for _ in range(su[1])] for _ in range(su[0])]
     tv = g.chance(0.2) and not final
-    return dict(kind="functional", dtype=dtype, ss=[N, H, T], su=su, spot=spot, unit=unit, cost=cost,
+    return dict(kind="functional", dtype=dtype, udtype=udtype, ss=[N, H, T], su=su, spot=spot, unit=unit, cost=cost,
                 payoff=payoff, pdim=pdim, first=first, final=final, tv=tv,
-                tags=dict(cost=ckind, payoff=pkind, shape=skind, sign=sign, const_spot=const_spot, neg_spot=neg_spot))
+                tags=dict(cost=ckind, payoff=pkind, shape=skind, sign=sign, const_spot=const_spot, neg_spot=neg_spot,
+                          udtype=udtype))
 
 
 def to_req(c):
@@ -125,7 +131,13 @@ def run_impl_functional(torch, c):
     from pfhedge.nn.functional import pl, terminal_value
     dt = getattr(torch, c["dtype"])
     spot = torch.tensor([[[float(x) for x in r] for r in p] for p in c["spot"]], dtype=dt).reshape(c["ss"])
-    unit = torch.tensor([[[float(x) for x in r] for r in p] for p in c["unit"]], dtype=dt).reshape(c["su"])
+    if c.get("udtype", "same") == "same":
+        unit = torch.tensor([[[float(x) for x in r] for r in p] for p in c["unit"]], dtype=dt).reshape(c["su"])
+    else:
+        if any(x.denominator != 1 for p in c["unit"] for r in p for x in r):
+            raise InternalError("integer-dtype positions must be integer-valued")
+        unit = torch.tensor([[[int(x) for x in r] for r in p] for p in c["unit"]],
+                            dtype=getattr(torch, c["udtype"])).reshape(c["su"])
     cost = None if c["cost"] is None else [float(x) for x in c["cost"]]
     payoff = None
     if c["payoff"] is not None:
@@ -172,9 +184,21 @@ def gen_hedger(g, tier):
     w = [[g.choice([F(-1), F(-1, 2), F(0), F(1, 2), F(1), F(1, 4)]) for _ in range(3)] for _ in range(nh)]
     b = [g.choice([F(0), F(1, 2), F(-1, 4)]) for _ in range(nh)]
     deriv = g.choice(["european", "lookback", "european_put"])
+    clause = g.chance(0.2)
+    # pass-through hedging rule: the hedger's ONLY input is a feature that exposes an instrument's price buffer itself
+    # ('underlier_spot'; 'spot' of a derivative listed at its underlier's price) and the module returns its input object
+    # (Identity / an empty Sequential): "hold as many shares as the price".  One feature -> one hedging instrument.
+    view, passthru = None, None
+    if g.chance(0.12):
+        model = "identity"
+        view = g.choice(["underlier_spot", "underlier_spot", "spot"])
+        passthru = g.choice(["Identity", "Sequential()"])
+        hedges, w, b, nh = hedges[:1], w[:1], b[:1], 1
+    # call sequence: the hedge is asked for before the P&L (as ever), or the P&L is the first thing asked of the fresh market
+    order = g.weighted([("hedge_first", 3), ("pl_first", 1)])
     return dict(kind="hedger", N=N, T=T, hedges=hedges, model=model, strike=strike, w=w, b=b,
-                deriv=deriv, clause=g.chance(0.2), first=True,
-                tags=dict(model=model, nh=nh, deriv=deriv))
+                deriv=deriv, clause=clause, first=True, view=view, passthru=passthru, order=order,
+                tags=dict(model=model, nh=nh, deriv=deriv, order=order, view=view))
 
 
 def build_hedger_case(torch, c):
@@ -218,6 +242,11 @@ def build_hedger_case(torch, c):
     if c["model"] == "naked":
         model = Naked(nh)
         inputs = ["moneyness"]
+    elif c["model"] == "identity":
+        inputs = [c["view"]]
+        if c["view"] == "spot":
+            deriv.list(lambda d: d.ul().spot)   # quoted at its underlier's price: the feature 'spot' is then that buffer
+        model = torch.nn.Identity() if c["passthru"] == "Identity" else torch.nn.Sequential()
     else:
         if c["model"] == "prev":
             inputs = ["moneyness", "prev_hedge"]
@@ -273,11 +302,17 @@ def run_hedger_case(torch, ctx, c, which):
                 elif h["kind"] == "listed":
                     hedge[i].ul().register_buffer("spot", t_)
         with torch.no_grad():
-            unit = hedger.compute_hedge(deriv, hedge)
-            seen = torch.stack([h.spot for h in hedge], dim=1)
-            payoff = deriv.payoff()
             fn = hedger.compute_pl if which == "pl" else hedger.compute_portfolio
-            st, v, mut = call_impl(fn, deriv, hedge, watch=watch)
+            if c.get("order", "hedge_first") == "hedge_first":
+                unit = hedger.compute_hedge(deriv, hedge)
+                seen = torch.stack([h.spot for h in hedge], dim=1)
+                payoff = deriv.payoff()
+                st, v, mut = call_impl(fn, deriv, hedge, watch=watch)
+            else:
+                payoff = deriv.payoff()
+                st, v, mut = call_impl(fn, deriv, hedge, watch=watch)
+                unit = hedger.compute_hedge(deriv, hedge)
+                seen = torch.stack([h.spot for h in hedge], dim=1)
         if mut:
             ctx.mutated(f"Hedger.compute_{which}", mut, c)
         cost = [F(float(torch.tensor(h.cost))) for h in hedge]
@@ -322,6 +357,8 @@ def check(ctx):
         small = {k: (to_req(c)[k] if k in to_req(c) else c[k]) for k in
                  ("ss", "su", "spot", "unit", "cost", "payoff", "first", "final", "tv")}
         small["dtype"] = c["dtype"]
+        if c["udtype"] != "same":
+            small["unit_dtype"] = c["udtype"]
         ctx.case(small, nontrivial, tag="functional")
         ctx.traces += 1
         # exactness guard (never fires by construction of the grids; counted if it does)
@@ -344,8 +381,13 @@ def check(ctx):
             exp = [wealth(s, u, cc, z, c["first"])
                    for s, u, z in zip(c["spot"], c["unit"], c["payoff"] or [None] * c["ss"][0])]
             if ri[1] != exp:
-                ctx.fail("functional.pl differs from the self-financing wealth identity", small,
-                         key="functional.pl:value", detail={"impl": enc_rat(ri[1]), "wealth": enc_rat(exp)})
+                if c["udtype"] != "same":
+                    ctx.fail("functional.pl differs from the self-financing wealth identity when the positions are an integer-dtype tensor (whole shares)",
+                             small, key="functional.pl:value:int-unit",
+                             detail={"impl": enc_rat(ri[1]), "wealth": enc_rat(exp), "unit_dtype": c["udtype"]})
+                else:
+                    ctx.fail("functional.pl differs from the self-financing wealth identity", small,
+                             key="functional.pl:value", detail={"impl": enc_rat(ri[1]), "wealth": enc_rat(exp)})
         elif wellshaped:
             ctx.fail("functional.pl rejects a well-shaped input", small, key="functional.pl:error",
                      detail={"impl": ri})
@@ -387,7 +429,13 @@ def check(ctx):
               if st == "ok":
                   exp = [wealth(s, u, cost, (pf[i] if pf is not None else None), True)
                          for i, (s, u) in enumerate(zip(sp, un))]
-                  if v != exp:
+                  if v != exp and c["model"] == "identity":
+                      ctx.fail(f"Hedger.compute_{which} with a pass-through hedging rule on a single price-buffer feature (hold as many shares as the price) "
+                               "differs from the wealth identity on the injected hedge prices, its own hedge, the instrument's cost and the payoff",
+                               _small_h(c, which), key=f"hedger.compute_{which}:value:passthrough-view-input",
+                               detail={"impl": enc_rat(v), "wealth": enc_rat(exp), "cost": enc_rat(cost), "round": rnd,
+                                       "hedge": enc_rat(un), "prices": enc_rat(sp)})
+                  elif v != exp:
                       ctx.fail(f"Hedger.compute_{which} differs from the wealth identity on the hedge spots, its own hedge, the instruments' costs and the payoff",
                                _small_h(c, which), key=f"hedger.compute_{which}:value",
                                detail={"impl": enc_rat(v), "wealth": enc_rat(exp), "cost": enc_rat(cost)})
@@ -403,13 +451,19 @@ def check(ctx):
     return ctx.finish(
         rule="functional: random (N,H,T) shapes with dyadic spot/unit/payoff/cost grids sized so float64/float32 commit no rounding; "
              "non-trivial = well-shaped, some cost>0, non-constant prices, positions of both signs, T>=2. "
-             "hedger: real Hedger (linear/ReLU/prev_hedge/Naked models with dyadic weights) on injected dyadic buffers with primary and listed hedges; "
+             "integer-dtype (int64/int32) whole-share positions against floating-point prices included. "
+             "hedger: real Hedger (linear/ReLU/prev_hedge/Naked models with dyadic weights, and pass-through modules on a single price-buffer feature) "
+             "on injected dyadic buffers with primary and listed hedges, hedge-then-P&L and P&L-first call orders; "
              "non-trivial = hedge moves, some cost>0, exactly representable. distinct = sha1 of the canonical case.")
 
 
 def _small_h(c, which):
     d = {k: c[k] for k in ("N", "T", "model", "strike", "deriv", "clause")}
     d["which"] = which
+    d["order"] = c.get("order", "hedge_first")
+    if c["model"] == "identity":
+        d["inputs"] = [c["view"]]
+        d["module"] = c["passthru"]
     d["hedges"] = [dict(kind=h["kind"], cost=rat_str(h["cost"]), a=rat_str(h["a"]), b=rat_str(h["b"]),
                         spot=enc_rat(h["spot"])) for h in c["hedges"]]
     d["w"] = enc_rat(c["w"])
